@@ -23,10 +23,7 @@ RULE = ("case = scenario (functional in {solve, symeig, svd, rootfinder, equilib
         "instance, gc disabled; state = event history, observation = (live tensor count, storage bytes) relative to "
         "the baseline taken after the harness tensors exist; distinct = distinct per-scenario observation tables; a "
         "case is trivial when every event kind raised in the warm-up")
-RULE_ADDED = ('Added later: variants maxrank, singE, diag, tsgrad, vary (values never seen before in the process) a'
-              'nd large (600 samples / 300 nodes: code paths selected by a size threshold). Round 4: variants raise'
-              's (failed calls are part of the history and must leave nothing behind) and debug (every event inside'
-              ' enable_debug).')
+RULE_ADDED = 'Added later: variants maxrank, singE, diag, tsgrad, vary (values never seen before in the process) and large (600 samples / 300 nodes: code paths selected by a size threshold). Round 4: variants raises (failed calls are part of the history and must leave nothing behind) and debug (every event inside enable_debug). Round 6: variants cutoff (iterations cut off by maxiter) and anomaly (events inside torch.autograd.detect_anomaly).'
 ASSUMPTIONS = [
     "one discarded warm-up call of each event kind per case (lazily created torch / library globals are not the property)",
     "census = torch.Tensor objects in gc.get_objects() allocated after gc.freeze() (taken after the warm-up); "
